@@ -43,6 +43,17 @@ def pathOf? : Term → Option (Option (List Seg))
 
 def srcOf? (c a : Term) : Option Src := do pure ⟨(← natLe? 250 c), (← natLe? 250 a)⟩
 
+def stateT : VState → Term
+  | .valid => sym "valid" | .invalid => sym "invalid" | .notFound => sym "notfound"
+def stateOf? : Term → Option VState
+  | .atom "valid" => some .valid | .atom "invalid" => some .invalid
+  | .atom "notfound" => some .notFound | _ => none
+def reasonT : Reason → Term
+  | .none => sym "none" | .asn => sym "asn" | .length => sym "length"
+def reasonOf? : Term → Option Reason
+  | .atom "none" => some .none | .atom "asn" => some .asn | .atom "length" => some .length
+  | _ => none
+
 def opOf? : Term → Option Op
   | .list [.atom "ins", c, a, n, ml, asn] => do
       let s ← srcOf? c a
@@ -58,6 +69,13 @@ def opOf? : Term → Option Op
       let vs ← vs.mapM (fun t => (asList? t).bind vrp3Of?)
       pure (.reset s vs)
   | .list [.atom "val", n, p] => do pure (.val (← netOf? n) (← pathOf? p))
+  | .list [.atom "val", n, p, pos] => do
+      let _ ← natLe? 3 pos
+      pure (.val (← netOf? n) (← pathOf? p))
+  | .list [.atom "show", st, n, p] => do pure (.display (← stateOf? st) (← netOf? n) (← pathOf? p))
+  | .list [.atom "show", st, n, p, pos] => do
+      let _ ← natLe? 3 pos
+      pure (.display (← stateOf? st) (← netOf? n) (← pathOf? p))
   | .list [.atom "iter", f] => (famOf? f).map .iter
   | _ => none
 
@@ -77,28 +95,21 @@ def entryOf? : Term → Option (Net × Roa)
       pure ((← netOf? n), ⟨(← asNat? ml), (← asNat? asn), ⟨(← asNat? c), (← asNat? a)⟩⟩)
   | _ => none
 
-def stateT : VState → Term
-  | .valid => sym "valid" | .invalid => sym "invalid" | .notFound => sym "notfound"
-def stateOf? : Term → Option VState
-  | .atom "valid" => some .valid | .atom "invalid" => some .invalid
-  | .atom "notfound" => some .notFound | _ => none
-def reasonT : Reason → Term
-  | .none => sym "none" | .asn => sym "asn" | .length => sym "length"
-def reasonOf? : Term → Option Reason
-  | .atom "none" => some .none | .atom "asn" => some .asn | .atom "length" => some .length
-  | _ => none
-
 def obT : Ob → Term
   | .unvalidated => sym "none"
   | .v r => tag "v" [stateT r.state, reasonT r.reason, tag "m" (r.matched.map entryT),
                      tag "ua" (r.unmatchedAsn.map entryT), tag "ul" (r.unmatchedLength.map entryT)]
   | .it l => tag "it" (l.map entryT)
+  | .api none f => tag "api" [sym "none", bool f]
+  | .api (some r) f => tag "api" [stateT r.1, reasonT r.2, bool f]
 def obOf? : Term → Option Ob
   | .atom "none" => some .unvalidated
   | .list [.atom "v", s, r, .list (.atom "m" :: m), .list (.atom "ua" :: ua), .list (.atom "ul" :: ul)] => do
       pure (.v ⟨(← stateOf? s), (← reasonOf? r), (← m.mapM entryOf?), (← ua.mapM entryOf?),
                 (← ul.mapM entryOf?)⟩)
   | .list (.atom "it" :: l) => (l.mapM entryOf?).map .it
+  | .list [.atom "api", .atom "none", f] => (asBool? f).map (.api none)
+  | .list [.atom "api", st, rs, f] => do pure (.api (some ((← stateOf? st), (← reasonOf? rs))) (← asBool? f))
   | _ => none
 
 def outT : Out (List Ob) → Term
